@@ -1,28 +1,402 @@
 import BU.Gen.Codec
 import BU.Model.Bech32
-/-! helper lemmas and proofs for `BU/Properties/C11_Gen.lean` (generated bech32 leaves = hand model) -/
+import BU.Proofs.LoopLemmas
+/-! Proofs for `BU/Properties/C11_Gen.lean`: the *generated* bech32 leaves (`bech32_polymod`, `bech32_hrp_expand`,
+`bech32_verify_checksum`, `bech32_create_checksum`, `convertbits` — re-translated from /repo on every run) compute on
+natural-number arguments exactly what the hand model `Model.Bech32` computes.  Loops are handled by the generic lemmas of
+`BU/Proofs/LoopLemmas.lean` (fold, early exit, bounded while).  Mathlib-free. -/
 namespace GenBech32
-open Model.Bech32
+open Model.Bech32 Py Loop
 
-def ofN (l : List Nat) : List Int := l.map Int.ofNat
-def encCode : Enc → Int | .bech32 => 1 | .bech32m => 2
+def genN : List Nat := [0x3b6a57b2, 0x26508e6d, 0x1ea119fa, 0x3d4233dd, 0x2a1462b3]
+
+theorem inner_step (top s i : Nat) (hi : i < 5) :
+    (do let t3 ← shr (top : Int) (Int.ofNat i)
+        (fun a => ForInStep.yield (lxor (s : Int) a)) <$>
+          (if (land t3 1 != 0) = true then
+            indexL [996825010, 642813549, 513874426, 1027748829, 705979059] (Int.ofNat i)
+           else pure 0) : Except PyErr (ForInStep Int)) =
+      .ok (ForInStep.yield ((s ^^^ (if (top >>> i) &&& 1 ≠ 0 then genN.getD i 0 else 0) : Nat) : Int)) := by
+  rw [show (Int.ofNat i) = (i : Int) from rfl, shr_natCast]
+  simp only [ok_bind]
+  rw [show ((1 : Int)) = ((1 : Nat) : Int) from rfl, land_natCast]
+  by_cases h : (top >>> i) &&& 1 ≠ 0
+  · rw [if_pos ((ne_zero_natCast _).2 h), if_pos h]
+    have : i = 0 ∨ i = 1 ∨ i = 2 ∨ i = 3 ∨ i = 4 := by omega
+    rcases this with rfl | rfl | rfl | rfl | rfl <;> rfl
+  · rw [if_neg (fun hh => h ((ne_zero_natCast _).1 hh)), if_neg h]
+    rfl
+
+/-- one round of the model's fold -/
+def pmStep (chk value : Nat) : Nat :=
+  (List.range 5).foldl (fun chk i => chk ^^^ (if ((chk0 >>> 25) >>> i) &&& 1 ≠ 0 then genN.getD i 0 else 0))
+    (((chk &&& 0x1FFFFFF) <<< 5) ^^^ value)
+where chk0 := chk
 
 theorem gen_polymod (vals : List Nat) :
-    Gen.bech32_polymod (vals.map Int.ofNat) = .ok ((polymod specConsts vals : Nat) : Int) := by sorry
+    Gen.bech32_polymod (vals.map Int.ofNat) = .ok ((polymod specConsts vals : Nat) : Int) := by
+  unfold Gen.bech32_polymod
+  simp only [bind_pure_comp]
+  have key := forIn_map_ok_foldl (α' := Nat) Int.ofNat (fun (p : Nat × Nat) => ((p.1 : Int), (p.2 : Int)))
+    (fun p value => (p.2 >>> 25, pmStep p.2 value))
+    (fun value __s => do
+        let t1 ← shr __s.snd 25
+        let t2 ← shl (land __s.snd 33554431) 5
+        (fun a => ForInStep.yield (t1, a)) <$>
+            forIn [:Int.toNat 5] (lxor t2 value) fun i_ __s => do
+              let t3 ← shr t1 (Int.ofNat i_)
+              (fun a => ForInStep.yield (lxor __s a)) <$>
+                  if (land t3 1 != 0) = true then
+                    indexL [996825010, 642813549, 513874426, 1027748829, 705979059] (Int.ofNat i_)
+                  else pure 0) vals
+    (by
+      intro a _ s
+      simp only
+      rw [show (25 : Int) = ((25 : Nat) : Int) from rfl, shr_natCast, ok_bind,
+        show (33554431 : Int) = ((33554431 : Nat) : Int) from rfl, land_natCast,
+        show (5 : Int) = ((5 : Nat) : Int) from rfl, shl_natCast_shift, ok_bind]
+      rw [show Int.ofNat a = (a : Int) from rfl, lxor_ofNat]
+      have := forIn_range_ok_foldl (fun (c : Nat) => (c : Int))
+        (fun chk i => chk ^^^ (if ((s.2 >>> 25) >>> i) &&& 1 ≠ 0 then genN.getD i 0 else 0))
+        (fun i_ __s => do
+              let t3 ← shr ((s.2 >>> 25 : Nat) : Int) (Int.ofNat i_)
+              (fun a => ForInStep.yield (lxor __s a)) <$>
+                  if (land t3 1 != 0) = true then
+                    indexL [996825010, 642813549, 513874426, 1027748829, 705979059] (Int.ofNat i_)
+                  else pure 0) 5 (fun i hi c => inner_step _ c i hi) (((s.2 &&& 33554431) <<< 5) ^^^ a)
+      rw [show Int.toNat ((5 : Nat) : Int) = 5 from rfl, this]
+      rfl) (0, 1)
+  rw [show ((0 : Int), (1 : Int)) = (fun (p : Nat × Nat) => ((p.1 : Int), (p.2 : Int))) (0, 1) from rfl, key]
+  simp only [map_ok]
+  congr 2
+  rw [foldl_snd _ pmStep (fun _ _ _ => rfl)]
+  rfl
+
 
 theorem gen_hrp_expand (hrp : List Char) :
-    Gen.bech32_hrp_expand hrp = .ok ((hrpExpand hrp).map Int.ofNat) := by sorry
+    Gen.bech32_hrp_expand hrp = .ok ((hrpExpand hrp).map Int.ofNat) := by
+  unfold Gen.bech32_hrp_expand
+  rw [mapM_ok _ (fun x => ((x.toNat >>> 5 : Nat) : Int)) hrp (by
+        intro a _
+        show (do let t1 ← Py.shr ((a.toNat : Nat) : Int) ((5 : Nat) : Int); pure t1) = _
+        rw [shr_natCast]),
+      ok_bind,
+      mapM_ok _ (fun x => ((x.toNat &&& 31 : Nat) : Int)) hrp (by
+        intro a _
+        show (pure (Py.land ((a.toNat : Nat) : Int) ((31 : Nat) : Int)) : Except PyErr Int) = _
+        rw [land_natCast]; rfl),
+      ok_bind]
+  simp [hrpExpand, pure, Except.pure, Function.comp_def]
 
 theorem gen_verify_checksum (hrp : List Char) (data : List Nat) :
     Gen.bech32_verify_checksum hrp (data.map Int.ofNat) =
-      .ok ((verifyChecksum specConsts hrp data).map (fun e => match e with | .bech32 => (1 : Int) | .bech32m => 2)) := by sorry
+      .ok ((verifyChecksum specConsts hrp data).map (fun e => match e with | .bech32 => (1 : Int) | .bech32m => 2)) := by
+  unfold Gen.bech32_verify_checksum
+  rw [gen_hrp_expand, ok_bind, ← List.map_append, gen_polymod, ok_bind]
+  unfold verifyChecksum
+  simp only
+  by_cases h1 : polymod specConsts (hrpExpand hrp ++ data) = 1
+  · rw [h1]; rfl
+  · by_cases h2 : polymod specConsts (hrpExpand hrp ++ data) = specConsts.m
+    · rw [h2]; rfl
+    · rw [if_neg h1, if_neg h2]
+      have e1 : ((((polymod specConsts (hrpExpand hrp ++ data) : Nat) : Int) == (1 : Int)) = true) = False := by
+        simp only [eq_iff_iff, iff_false]
+        exact fun hh => h1 ((eq_natCast _ 1).1 hh)
+      have e2 : ((((polymod specConsts (hrpExpand hrp ++ data) : Nat) : Int) == (734539939 : Int)) = true) = False := by
+        simp only [eq_iff_iff, iff_false]
+        exact fun hh => h2 ((eq_natCast _ 734539939).1 hh)
+      simp only [e1, e2, if_false]
+      rfl
+
 
 theorem gen_create_checksum (hrp : List Char) (data : List Nat) (spec : Enc) :
     Gen.bech32_create_checksum hrp (data.map Int.ofNat) (match spec with | .bech32 => (1 : Int) | .bech32m => 2) =
-      .ok ((createChecksum specConsts hrp data spec).map Int.ofNat) := by sorry
+      .ok ((createChecksum specConsts hrp data spec).map Int.ofNat) := by
+  unfold Gen.bech32_create_checksum
+  rw [gen_hrp_expand, ok_bind]
+  have e0 : ([(0 : Int), 0, 0, 0, 0, 0]) = ([0, 0, 0, 0, 0, 0] : List Nat).map Int.ofNat := rfl
+  rw [← List.map_append, e0]
+  simp only []
+  rw [← List.map_append, gen_polymod, ok_bind]
+  have ec : (if ((match spec with | .bech32 => (1 : Int) | .bech32m => 2) == (2 : Int)) = true then (734539939 : Int) else 1)
+      = (((if spec = .bech32m then specConsts.m else 1 : Nat)) : Int) := by
+    cases spec <;> rfl
+  rw [ec, lxor_ofNat, show Py.range (6 : Int) = (List.range 6).map Int.ofNat from range_ofNat 6, List.mapM_map]
+  rw [mapM_ok _ (fun i => (((polymod specConsts (hrpExpand hrp ++ data ++ [0, 0, 0, 0, 0, 0]) ^^^
+        (if spec = .bech32m then specConsts.m else 1)) >>> (5 * (5 - i)) &&& 31 : Nat) : Int)) (List.range 6) (by
+      intro i hi
+      have hi' : i < 6 := List.mem_range.mp hi
+      have e5 : ((5 : Int) * ((5 : Int) - Int.ofNat i)) = ((5 * (5 - i) : Nat) : Int) := by
+        show ((5 : Int) * ((5 : Int) - (i : Int))) = _
+        omega
+      simp only [Function.comp]
+      rw [e5, shr_natCast, ok_bind]
+      show (pure (Py.land _ ((31 : Nat) : Int)) : Except PyErr Int) = _
+      rw [land_natCast]; rfl)]
+  simp [createChecksum, Function.comp_def]
+
+
+/-! ### convertbits -/
+
+/-- the inner `while bits >= tobits` of the model as `whileFuel` -/
+theorem emit_eq_whileFuel (acc maxv tobits : Nat) (fuel bits : Nat) (ret : List Nat) :
+    convertbits.emit tobits maxv acc fuel bits ret =
+      whileFuel (fun (s : Nat × List Nat) => decide (s.1 ≥ tobits))
+        (fun s => (s.1 - tobits, s.2 ++ [(acc >>> (s.1 - tobits)) &&& maxv])) fuel (bits, ret) := by
+  induction fuel generalizing bits ret with
+  | zero => rfl
+  | succ f ih =>
+    rw [convertbits.emit, whileFuel]
+    by_cases h : bits ≥ tobits
+    · simp only [h, if_true, decide_true]; exact ih _ _
+    · simp only [h, if_false, decide_false]; rfl
+
+
+theorem whileFuel_stops {σ : Type} (cond : σ → Bool) (step : σ → σ) (measure : σ → Nat)
+    (hdec : ∀ s, cond s = true → measure (step s) < measure s) (N : Nat) (s : σ) (h : measure s < N) :
+    cond (whileFuel cond step N s) = false := by
+  induction N generalizing s with
+  | zero => omega
+  | succ N ih =>
+    rw [whileFuel]
+    cases hc : cond s with
+    | false => simp [hc]
+    | true =>
+      simp only [if_true]
+      have := hdec s hc
+      exact ih _ (by omega)
+
+theorem foldlM_inv {α σ : Type} (g : σ → α → Option σ) (Inv : σ → Prop)
+    (hstep : ∀ s a s', Inv s → g s a = some s' → Inv s') (xs : List α) (s0 s' : σ) (h0 : Inv s0)
+    (h : xs.foldlM g s0 = some s') : Inv s' := by
+  induction xs generalizing s0 with
+  | nil => simp [List.foldlM_nil, pure] at h; exact h ▸ h0
+  | cons x xs ih =>
+    rw [List.foldlM_cons] at h
+    cases hg : g s0 x with
+    | none => rw [hg] at h; simp [bind, Option.bind] at h
+    | some s1 => rw [hg] at h; exact ih s1 (hstep _ _ _ h0 hg) h
+
+/-- one step of the model's fold, on a live state -/
+def cbStep (frombits tobits : Nat) (s : Nat × Nat × List Nat) (value : Nat) : Option (Nat × Nat × List Nat) :=
+  if value >>> frombits ≠ 0 then none
+  else
+    let acc := ((s.1 <<< frombits) ||| value) &&& ((1 <<< (frombits + tobits - 1)) - 1)
+    let w := whileFuel (fun (s : Nat × List Nat) => decide (s.1 ≥ tobits))
+        (fun s => (s.1 - tobits, s.2 ++ [(acc >>> (s.1 - tobits)) &&& ((1 <<< tobits) - 1)]))
+        (s.2.1 + frombits + 1) (s.2.1 + frombits, s.2.2)
+    some (acc, w.1, w.2)
+
+abbrev St := Option (Option (List Int)) × Int × Int × List Int
+def enc (s : Nat × Nat × List Nat) : St := (none, (s.1 : Int), (s.2.1 : Int), s.2.2.map Int.ofNat)
+
+theorem pow_cast_sub_one (k : Nat) : (((1 <<< k : Nat) : Int) - 1) = (((1 <<< k) - 1 : Nat) : Int) := by
+  have : 1 ≤ 1 <<< k := by rw [Nat.one_shiftLeft]; exact Nat.one_le_two_pow
+  omega
+
+/-- the body of the outer loop of the generated `convertbits` (with `maxv`, `max_acc` already evaluated) -/
+def cbF (frombits tobits : Nat) : Int → St → Except PyErr (ForInStep St) :=
+      fun (value : Int) (__s : St) =>
+          have __s := __s.snd;
+          have acc := __s.fst;
+          have __s := __s.snd;
+          have bits := __s.fst;
+          have ret := __s.snd;
+          do
+          let t4 ←
+            (if decide (value < 0) = true then pure true
+              else (do
+                let t3 ← shr value ↑frombits
+                pure (t3 != 0)))
+          if t4 = true then pure (ForInStep.done (some none, acc, bits, ret))
+            else do
+              let t5 ← shl acc ↑frombits
+              have acc : Int := land (lor t5 value) ((((1 <<< (frombits + tobits - 1)) - 1 : Nat) : Int))
+              have bits : Int := bits + ↑frombits
+              have bound6 : Nat := bits.toNat + 1
+              let __s ←
+                forIn [:bound6 + 1] (bits, ret) fun fuel_ __s =>
+                    have bits := __s.fst;
+                    have ret := __s.snd;
+                    if (!decide (bits ≥ ↑tobits)) = true then pure (ForInStep.done (bits, ret))
+                    else
+                      have __do_jp := fun (__r : Unit) =>
+                        have bits := bits - ↑tobits;
+                        do
+                        let t7 ← shr acc bits
+                        have ret : List Int := ret ++ [land t7 ((((1 <<< tobits) - 1 : Nat) : Int))]
+                        pure (ForInStep.yield (bits, ret));
+                      if (fuel_ == bound6) = true then do
+                        let __r ← throw PyErr.fellThrough
+                        __do_jp __r
+                      else __do_jp ()
+              have bits : Int := __s.fst
+              have ret : List Int := __s.snd
+              pure (ForInStep.yield (none, acc, bits, ret))
+
+theorem cb_body (frombits tobits : Nat) (htb : 0 < tobits) (a : Nat) (s : Nat × Nat × List Nat) :
+    (∀ s', cbStep frombits tobits s a = some s' →
+      cbF frombits tobits (Int.ofNat a) (enc s) = Except.ok (ForInStep.yield (enc s'))) ∧
+    (cbStep frombits tobits s a = none →
+      ∃ b, cbF frombits tobits (Int.ofNat a) (enc s) = Except.ok (ForInStep.done b) ∧ b.1 = some none) := by
+  unfold cbStep cbF
+  by_cases hv : a >>> frombits ≠ 0
+  · rw [if_pos hv]
+    refine ⟨fun s' h => (by cases h), fun _ => ?_⟩
+    obtain ⟨acc0, bits0, ret0⟩ := s
+    simp only [enc]
+    have hneg : decide ((Int.ofNat a) < 0) = false := by simp
+    rw [hneg]
+    simp only [Bool.false_eq_true, if_false]
+    rw [show Int.ofNat a = (a : Int) from rfl, shr_natCast, ok_bind]
+    have hz : (((a >>> frombits : Nat) : Int) != 0) = true := by
+      simp only [bne_iff_ne, ne_eq]; omega
+    simp only [pure, Except.pure, ok_bind, hz, if_true]
+    exact ⟨_, rfl, rfl⟩
+  rw [if_neg hv]
+  refine ⟨fun s' h => ?_, fun h => (by cases h)⟩
+  simp only [Option.some.injEq] at h
+  subst h
+  obtain ⟨acc0, bits0, ret0⟩ := s
+  simp only [enc]
+  have hneg : decide ((Int.ofNat a) < 0) = false := by simp
+  rw [hneg]
+  simp only [Bool.false_eq_true, if_false]
+  rw [show Int.ofNat a = (a : Int) from rfl, shr_natCast, ok_bind]
+  have hz : (((a >>> frombits : Nat) : Int) != 0) = false := by
+    have : a >>> frombits = 0 := Classical.not_not.mp hv
+    rw [this]; rfl
+  simp only [pure, Except.pure, ok_bind, hz, Bool.false_eq_true, if_false]
+  rw [shl_natCast_shift, ok_bind, lor_natCast, land_natCast]
+  have hb : ((bits0 : Int) + (frombits : Int)) = ((bits0 + frombits : Nat) : Int) := by omega
+  simp only [hb, Int.toNat_natCast]
+  -- the inner bounded while
+  have hin := forIn_range_while
+    (fun (s : Nat × List Nat) => (((s.1 : Nat) : Int), s.2.map Int.ofNat))
+    (fun (s : Nat × List Nat) => decide (s.1 ≥ tobits))
+    (fun s => (s.1 - tobits, s.2 ++ [((((acc0 <<< frombits) ||| a) &&& ((1 <<< (frombits + tobits - 1)) - 1)) >>> (s.1 - tobits)) &&& ((1 <<< tobits) - 1)]))
+    (fun fuel_ (__s : Int × List Int) =>
+            if (!decide (__s.fst ≥ ↑tobits)) = true then Except.ok (ForInStep.done (__s.fst, __s.snd))
+            else
+              if (fuel_ == bits0 + frombits + 1) = true then do
+                throw PyErr.fellThrough
+                let t7 ← shr (↑((acc0 <<< frombits ||| a) &&& 1 <<< (frombits + tobits - 1) - 1)) (__s.fst - ↑tobits)
+                Except.ok (ForInStep.yield (__s.fst - ↑tobits, __s.snd ++ [land t7 ↑(1 <<< tobits - 1)]))
+              else do
+                let t7 ← shr (↑((acc0 <<< frombits ||| a) &&& 1 <<< (frombits + tobits - 1) - 1)) (__s.fst - ↑tobits)
+                Except.ok (ForInStep.yield (__s.fst - ↑tobits, __s.snd ++ [land t7 ↑(1 <<< tobits - 1)])))
+    (bits0 + frombits + 1) (fun s => s.1)
+    (by
+      intro i s hc
+      have : ¬ (s.1 ≥ tobits) := by simpa using hc
+      have h2 : decide (((s.1 : Nat) : Int) ≥ (tobits : Int)) = false := by
+        simp only [decide_eq_false_iff_not]; omega
+      simp only [h2, Bool.not_false, if_true])
+    (by
+      intro i s hi hc
+      have h1 : s.1 ≥ tobits := by simpa using hc
+      have h2 : decide (((s.1 : Nat) : Int) ≥ (tobits : Int)) = true := by
+        simp only [decide_eq_true_eq]; omega
+      have h3 : (i == bits0 + frombits + 1) = false := by
+        simp only [beq_eq_false_iff_ne]; omega
+      simp only [h2, Bool.not_true, Bool.false_eq_true, if_false, h3]
+      have h4 : ((s.1 : Int) - (tobits : Int)) = ((s.1 - tobits : Nat) : Int) := by omega
+      rw [h4, shr_natCast, ok_bind, land_natCast]
+      simp)
+    (by
+      intro s hc
+      have h1 : s.1 ≥ tobits := by simpa using hc
+      show s.1 - tobits < s.1
+      omega)
+    (bits0 + frombits, ret0) (by show bits0 + frombits < bits0 + frombits + 1; omega)
+  simp only at hin
+  rw [hin, ok_bind]
+
+
+/-- the model's fold is `foldlM cbStep` -/
+theorem model_fold (data : List Nat) (frombits tobits : Nat) (pad : Bool) :
+    convertbits data frombits tobits pad =
+      match data.foldlM (cbStep frombits tobits) (0, 0, []) with
+      | none => none
+      | some (acc, bits, ret) =>
+        if pad then
+          if bits ≠ 0 then some (ret ++ [(acc <<< (tobits - bits)) &&& ((1 <<< tobits) - 1)]) else some ret
+        else if bits ≥ frombits ∨ ((acc <<< (tobits - bits)) &&& ((1 <<< tobits) - 1)) ≠ 0 then none
+        else some ret := by
+  unfold convertbits
+  simp only
+  rw [foldl_absorbing _ (cbStep frombits tobits) _ (fun a => rfl)]
+  · rfl
+  intro s a
+  obtain ⟨acc, bits, ret⟩ := s
+  simp only [cbStep]
+  rw [emit_eq_whileFuel]
+
+/-- after every step fewer than `tobits` bits are pending -/
+theorem cbStep_inv (frombits tobits : Nat) (htb : 0 < tobits) (s : Nat × Nat × List Nat) (a : Nat)
+    (s' : Nat × Nat × List Nat) (h : cbStep frombits tobits s a = some s') : s'.2.1 < tobits := by
+  unfold cbStep at h
+  split at h
+  · cases h
+  · simp only [Option.some.injEq] at h
+    subst h
+    have := whileFuel_stops (fun (s : Nat × List Nat) => decide (s.1 ≥ tobits))
+      (fun s' => (s'.1 - tobits, s'.2 ++ [((((s.1 <<< frombits) ||| a) &&& ((1 <<< (frombits + tobits - 1)) - 1)) >>> (s'.1 - tobits)) &&& ((1 <<< tobits) - 1)]))
+      (fun s => s.1)
+      (by intro s hc; have h1 : s.1 ≥ tobits := by simpa using hc
+          show s.1 - tobits < s.1; omega)
+      (s.2.1 + frombits + 1) (s.2.1 + frombits, s.2.2) (by show s.2.1 + frombits < _; omega)
+    simpa using this
 
 theorem gen_convertbits (data : List Nat) (frombits tobits : Nat) (pad : Bool) (htb : 0 < tobits) :
     Gen.convertbits (data.map Int.ofNat) (frombits : Int) (tobits : Int) pad =
-      .ok ((convertbits data frombits tobits pad).map (fun l => l.map Int.ofNat)) := by sorry
+      .ok ((convertbits data frombits tobits pad).map (fun l => l.map Int.ofNat)) := by
+  unfold Gen.convertbits
+  simp only []
+  rw [show (1 : Int) = ((1 : Nat) : Int) from rfl, shl_natCast_shift, ok_bind]
+  have e1 : ((frombits : Int) + (tobits : Int) - ((1 : Nat) : Int)) = ((frombits + tobits - 1 : Nat) : Int) := by omega
+  rw [e1, shl_natCast_shift, ok_bind, pow_cast_sub_one, pow_cast_sub_one]
+  obtain ⟨b, hb, hm1, hm2⟩ := forIn_map_exit Int.ofNat enc (fun (b : St) => b.1 = some none) (cbStep frombits tobits)
+    (cbF frombits tobits) data (fun a _ s => (cb_body frombits tobits htb a s).1)
+    (fun a _ s => (cb_body frombits tobits htb a s).2) (0, 0, [])
+  conv => lhs; arg 1; arg 3; change cbF frombits tobits
+  conv => lhs; arg 1; arg 2; change enc (0, 0, [])
+  rw [hb, ok_bind, model_fold]
+  cases hf : data.foldlM (cbStep frombits tobits) (0, 0, []) with
+  | none =>
+    simp only [hm2 hf]
+    rfl
+  | some s' =>
+    have hinv : s'.2.1 < tobits :=
+      foldlM_inv (cbStep frombits tobits) (fun s => s.2.1 < tobits)
+        (fun s a s' _ h => cbStep_inv frombits tobits htb s a s' h) data (0, 0, []) s' htb hf
+    obtain ⟨acc, bits, ret⟩ := s'
+    have hbb : b = (none, (acc : Int), (bits : Int), ret.map Int.ofNat) := hm1 _ hf
+    subst hbb
+    simp only []
+    have hinv' : bits < tobits := hinv
+    have hsub : ((tobits : Int) - (bits : Int)) = ((tobits - bits : Nat) : Int) := by omega
+    rw [hsub, shl_natCast_shift]
+    simp only [ok_bind, land_natCast, pure, Except.pure]
+    cases pad with
+    | true =>
+      simp only [if_true]
+      by_cases hb0 : bits = 0
+      · subst hb0; simp
+      · have : (((bits : Int) != 0) = true) := by simp [hb0]
+        simp [this, hb0]
+    | false =>
+      simp only [Bool.false_eq_true, if_false]
+      by_cases hge : bits ≥ frombits
+      · have : decide ((bits : Int) ≥ (frombits : Int)) = true := by simp only [decide_eq_true_eq]; omega
+        simp [hge, ok_bind]
+      · have : decide ((bits : Int) ≥ (frombits : Int)) = false := by simp only [decide_eq_false_iff_not]; omega
+        simp only [this, Bool.false_eq_true, if_false, ok_bind]
+        by_cases hnz : (acc <<< (tobits - bits)) &&& ((1 <<< tobits) - 1) = 0
+        · simp [hnz, hge]
+        · have h2 : ((((acc <<< (tobits - bits)) &&& ((1 <<< tobits) - 1) : Nat) : Int) != 0) = true := by
+            simp only [bne_iff_ne, ne_eq]; omega
+          simp [h2, hnz]
 
 end GenBech32
